@@ -128,15 +128,7 @@ func (vc *VC) callValue(act *Act, st *State, common *ssa.CallCommon, fnVal Val, 
 	return res
 }
 
-func (vc *VC) dynName(v ssa.Value) string {
-	if u, ok := v.(*ssa.UnOp); ok {
-		return vc.storeWhat(u.X)
-	}
-	if l, ok := v.(*ssa.Lookup); ok {
-		return "lookup:" + vc.dynName(l.X)
-	}
-	return v.Name()
-}
+func (vc *VC) dynName(v ssa.Value) string { return dynNameOf(v) }
 
 func paramTypes(fn *ssa.Function) []types.Type {
 	out := make([]types.Type, len(fn.Params))
@@ -750,9 +742,9 @@ func (vc *VC) resolveModifies(env *SpecEnv, clauses []*Clause) (items []frameIte
 				fi := frameItem{kind: "obj", ref: refOf(tv.v), text: it.Text}
 				switch u := tv.t.Underlying().(type) {
 				case *types.Slice:
-					fi.otype = types.NewSlice(u.Elem())
+					fi.otype, fi.otid = types.NewSlice(u.Elem()), vc.eng.arrTid(u.Elem())
 				case *types.Map:
-					fi.otype = u
+					fi.otype, fi.otid = u, vc.eng.mapTid(u)
 				}
 				items = append(items, fi)
 			case "field":
